@@ -152,6 +152,7 @@ class FnSpec:
         self.breakvals = []
         self.mutself = False
         self.selfarg = None
+        self.like = None
         self.nested = {}
 
 
@@ -358,6 +359,24 @@ class Generator:
                         label, when = [x.strip() for x in arg.split(":", 1)]
                         case = {"label": label, "when": when, "ensures": [], "requires": []}
                         spec.cases.append(case)
+                    elif cmd == "like":
+                        # same contract text as another function (e.g. the sync twin of an async-lock method)
+                        upath, frest = [x.strip() for x in arg.split("::", 1)]
+                        ulines = open(os.path.join(VERIF, upath)).read().split("\n")
+                        want = ("//@fn " + frest).replace(" ", "")
+                        k = next((n for n, l in enumerate(ulines) if l.strip().replace(" ", "") == want), None)
+                        if k is None:
+                            raise RuntimeError("like: %s not found in %s" % (frest, upath))
+                        other, _ = self.parse_fn_block(ulines, k)
+                        # the clauses are taken over verbatim; they all serve the properties of THIS function
+                        spec.requires = list(other.requires)
+                        spec.ensures = [(None, t) for _, t in other.ensures]
+                        spec.cases = [dict(c, ensures=[(None, t) for _, t in c["ensures"]]) for c in other.cases]
+                        if not spec.props:
+                            spec.props = list(other.props)
+                        if spec.recv is None:
+                            spec.recv = other.recv
+                        spec.like = "%s :: %s" % (upath, frest)
                     elif cmd == "mutself":
                         spec.mutself = True
                     elif cmd == "selfarg":
